@@ -154,7 +154,7 @@ func cmdCheck(args []string) int {
 			eng.extraInterp[x] = true
 		}
 		if g.Redirects != "" {
-			if err := eng.loadRedirects(filepath.Join(hdir, g.Redirects), g.Pkg); err != nil {
+			if err := eng.loadRedirectFiles(hdir, g.Redirects, g.Pkg); err != nil {
 				fmt.Printf("INCONCLUSIVE property=%s: redirects: %v\n", prop, err)
 				inconclusive = append(inconclusive, "redirects: "+err.Error())
 				continue
